@@ -65,6 +65,17 @@ thing.  Each round made the next miss rarer only for the family it added.
 
 {table}
 
+**Regression sweep.**  `meta.json` records the run made when a change was stored; the machinery kept changing afterwards
+(new families shift the random streams; the quick sample of small forests was re-stratified in round 8).  After round 9 the
+stored changes were therefore run once more against the final code, in development lanes (three copies of /verif, each
+with its own copy of the crate): the 253 with letters A - M (A - L for the five forest checks whose M had just been stored; the letters N had
+just been stored with the final code).  Six were no longer reported: C01-G, C01-H, C02-D, C10-H (each had been caught by a
+single lucky random input; all four now have a small deterministic family of their own and are reported again), C08-A
+(a prefix id narrowed to 8 bits was being tagged with the open finding K-C08, whose signature matched any large bulk
+registration that goes wrong - it now matches the 16-bit wrap only) and C04-F (the change corrupts the forest so badly
+that the evidence bookkeeping of the check crashed - a tool error instead of a report; the bookkeeping is robust now).
+All six are reported again by the committed code.
+
 **What the seeds did not exercise.**  No kept change needs a thorough-tier run to be seen, so the matrix says nothing
 about the extra depth of the thorough tier.  No agent produced a behaviour-preserving refactoring; the no-false-alarm
 side is covered by running every check with three seeds on the unchanged tree after each change to the machinery (and
